@@ -422,3 +422,212 @@ CONTRACTS += [Uniqueness('argument_uniqueness.py', 'ArgumentUniqueness', ['self'
               Uniqueness('operation_name_uniqueness.py', 'OperationNameUniqueness', ['self', 'path', 'operations'], 'operations'),
               Uniqueness('input_object_field_uniqueness.py', 'InputObjectFieldUniqueness', ['self', 'path', 'input_fields'], 'input_fields'),
               Uniqueness('directives_are_unique_per_location.py', 'DirectivesAreUniquePerLocation', ['self', 'directives', 'path'], 'directives')]
+
+
+# ---- 5.4.1 argument names / 5.4.2.1 required arguments
+FieldOf = z3.Function('SchemaFieldOf', V, V, V, V)          # find_field(parent type name, field name, schema): the GraphQLField or None
+_FF_MODEL = {Q + 'utils.py::find_field': lambda en, st, a, kw: [(st, FieldOf(en.read(a[0], st), en.read(a[1], st), en.read(a[2], st)))]}
+ArgDeclared = ForallList('argument_is_declared', lambda a, defs: lookup(defs, name_of(a)) != V.Missing, param_sorts=[VL])
+AllArgNodes = ForallList('query_argument_node', lambda a: z3.And(exact(a, 'ArgumentNode'), V.oref(a) >= 0, named(a)))
+
+
+def has_args(n):
+    return z3.And(V.is_List(attr0(n, 'arguments')), AllArgNodes(V.items(attr0(n, 'arguments'))), AllNameable(V.items(attr0(n, 'arguments'))), AllAstNodes(V.items(attr0(n, 'arguments'))))
+
+
+def directive_node_wf(d):
+    return z3.And(exact(d, 'DirectiveNode'), V.oref(d) >= 0, named(d), has_args(d))
+
+
+def dir_def(s, d):
+    return lookup(V.ditems(attr0(s, '_directive_definitions')), name_of(d))
+
+
+def dir_defs_wf(s, d):
+    dd = dir_def(s, d)
+    return z3.Implies(dd != V.Missing, z3.And(exact(dd, 'GraphQLDirective'), V.oref(dd) >= 0, V.is_Str(attr0(dd, 'name')), V.is_Dict(attr0(dd, 'arguments')),
+                                              AllArgDefs(V.ditems(attr0(dd, 'arguments')))))
+
+
+AllArgDefs = ForallList('schema_argument_entry', lambda p: z3.And(V.is_Pair(p), V.is_Str(V.fst(p)), exact(V.snd(p), 'GraphQLArgument'), V.oref(V.snd(p)) >= 0, V.is_Str(attr0(V.snd(p), 'name')),
+                                                                 inst(attr0(V.snd(p), 'graphql_type'), 'GraphQLType'), V.oref(attr0(V.snd(p), 'graphql_type')) >= 0))
+
+
+def schema_field_wf(f):
+    return z3.Or(f == V.None_, z3.And(exact(f, 'GraphQLField'), V.oref(f) >= 0, V.is_Str(attr0(f, 'name')), V.is_Dict(attr0(f, 'arguments')), AllArgDefs(V.ditems(attr0(f, 'arguments')))))
+
+
+class ArgumentNamesDirective(Rule):
+    """5.4.1 on a directive: every provided argument is declared by the (known) directive"""
+    key = Q + 'argument_names.py::ArgumentNames._validate_directive_arguments'
+    params = ['self', 'query_node', 'path', 'schema']
+    self_class = 'ArgumentNames'
+
+    def pre(self, A, st):
+        return self.rule_pre(A) + [('directive', directive_node_wf(A['query_node'])), ('schema', z3.And(schema_wf(A['schema']), dir_defs_wf(A['schema'], A['query_node'])))]
+
+    def _inv(self, en, st, k, st0):
+        d = dir_def(self.A['schema'], self.A['query_node'])
+        errors = V.items(en.read(st.env['errors'], st))
+        return {'errors_iff_undeclared_argument_so_far': VL.is_nil(errors) == ArgDeclared(take(V.items(attr0(self.A['query_node'], 'arguments')), k), V.ditems(attr0(d, 'arguments')))}
+
+    @property
+    def loops(self):
+        return {0: LoopContract(self._inv)}
+
+    def broken(self, A):
+        d = dir_def(A['schema'], A['query_node'])
+        return z3.And(d != V.Missing, z3.Not(ArgDeclared(V.items(attr0(A['query_node'], 'arguments')), V.ditems(attr0(d, 'arguments')))))
+
+
+class ArgumentNamesField(Rule):
+    """5.4.1 on a field: every provided argument is declared by the (known) field"""
+    key = Q + 'argument_names.py::ArgumentNames._validate_field_arguments'
+    params = ['self', 'query_field', 'path', 'schema', 'parent_type_name']
+    self_class = 'ArgumentNames'
+    callee_models = _FF_MODEL
+
+    def _sf(self, A):
+        return FieldOf(A['parent_type_name'], name_of(A['query_field']), A['schema'])
+
+    def pre(self, A, st):
+        f = A['query_field']
+        return self.rule_pre(A) + [('field', z3.And(exact(f, 'FieldNode'), V.oref(f) >= 0, named(f), has_args(f))), ('schema', schema_wf(A['schema'])),
+                                   ('schema_field', schema_field_wf(self._sf(A)))]
+
+    def _inv(self, en, st, k, st0):
+        errors = V.items(en.read(st.env['errors'], st))
+        return {'errors_iff_undeclared_argument_so_far': VL.is_nil(errors) == ArgDeclared(take(V.items(attr0(self.A['query_field'], 'arguments')), k), V.ditems(attr0(self._sf(self.A), 'arguments')))}
+
+    @property
+    def loops(self):
+        return {0: LoopContract(self._inv)}
+
+    def broken(self, A):
+        sf = self._sf(A)
+        return z3.And(sf != V.None_, z3.Not(ArgDeclared(V.items(attr0(A['query_field'], 'arguments')), V.ditems(attr0(sf, 'arguments')))))
+
+
+# required arguments: a declared argument that is non-null without default must be provided
+def _required_and_missing(p_or_arg, provided):
+    a = p_or_arg
+    return z3.And(inst(attr0(a, 'graphql_type'), 'GraphQLNonNull'), attr0(a, 'default_value') == V.None_, NoneNamed(provided, attr0(a, 'name')))
+
+
+ReqMissing = ForallList('required_argument_is_missing', lambda a, provided: _required_and_missing(a, provided), param_sorts=[VL])
+ReqSatisfied = ForallList('required_argument_is_satisfied', lambda a, provided: z3.Not(_required_and_missing(a, provided)), param_sorts=[VL])
+AllArgDefValues = ForallList('schema_argument', lambda a: z3.And(exact(a, 'GraphQLArgument'), V.oref(a) >= 0, V.is_Str(attr0(a, 'name')), inst(attr0(a, 'graphql_type'), 'GraphQLType'),
+                                                                V.oref(attr0(a, 'graphql_type')) >= 0))
+
+
+class RequiredArgumentsOf(Rule):
+    """5.4.2.1: reports iff some argument the definition declares non-null without default is not provided by the node"""
+    key = Q + 'required_arguments.py::RequiredArguments._validate_arguments'
+    params = ['self', 'parent_node', 'schema_definition', 'path', 'message_suffix']
+    self_class = 'RequiredArguments'
+
+    @property
+    def filter_specs(self):
+        return {0: (ReqMissing, ReqSatisfied, lambda en: [V.items(attr0(self.A['parent_node'], 'arguments'))])}
+
+    def pre(self, A, st):
+        n, d = A['parent_node'], A['schema_definition']
+        return self.rule_pre(A) + [('node', z3.And(z3.Or(exact(n, 'FieldNode'), exact(n, 'DirectiveNode')), V.oref(n) >= 0, has_args(n))),
+                                   ('definition', z3.And(z3.Or(exact(d, 'GraphQLField'), exact(d, 'GraphQLDirective')), V.oref(d) >= 0, V.is_Dict(attr0(d, 'arguments')),
+                                                         AllArgDefValues(vals(V.ditems(attr0(d, 'arguments'))))))]
+
+    def broken(self, A):
+        return z3.Not(ReqSatisfied(vals(V.ditems(attr0(A['schema_definition'], 'arguments'))), V.items(attr0(A['parent_node'], 'arguments'))))
+
+
+CONTRACTS += [ArgumentNamesDirective(), ArgumentNamesField(), RequiredArgumentsOf()]
+
+
+def _req_broken(defn, node):
+    return z3.Not(ReqSatisfied(vals(V.ditems(attr0(defn, 'arguments'))), V.items(attr0(node, 'arguments'))))
+
+
+def _dir_def_req_wf(s, d):
+    dd = dir_def(s, d)
+    return z3.Implies(dd != V.Missing, z3.And(exact(dd, 'GraphQLDirective'), V.oref(dd) >= 0, V.is_Dict(attr0(dd, 'arguments')), AllArgDefValues(vals(V.ditems(attr0(dd, 'arguments'))))))
+
+
+def _field_def_req_wf(f):
+    return z3.Or(f == V.None_, z3.And(exact(f, 'GraphQLField'), V.oref(f) >= 0, V.is_Dict(attr0(f, 'arguments')), AllArgDefValues(vals(V.ditems(attr0(f, 'arguments'))))))
+
+
+class RequiredArgumentsDirective(Rule):
+    key = Q + 'required_arguments.py::RequiredArguments._validate_directive'
+    params = ['self', 'path', 'schema', 'directive_node']
+    self_class = 'RequiredArguments'
+
+    def pre(self, A, st):
+        return self.rule_pre(A) + [('directive', directive_node_wf(A['directive_node'])), ('schema', z3.And(schema_wf(A['schema']), _dir_def_req_wf(A['schema'], A['directive_node'])))]
+
+    def broken(self, A):
+        dd = dir_def(A['schema'], A['directive_node'])
+        return z3.And(dd != V.Missing, _req_broken(dd, A['directive_node']))
+
+
+class RequiredArgumentsField(Rule):
+    key = Q + 'required_arguments.py::RequiredArguments._validate_field'
+    params = ['self', 'path', 'schema', 'field', 'parent_type_name']
+    self_class = 'RequiredArguments'
+    callee_models = _FF_MODEL
+
+    def _sf(self, A):
+        return FieldOf(A['parent_type_name'], name_of(A['field']), A['schema'])
+
+    def pre(self, A, st):
+        f = A['field']
+        return self.rule_pre(A) + [('field', z3.And(exact(f, 'FieldNode'), V.oref(f) >= 0, named(f), has_args(f))), ('schema', schema_wf(A['schema'])),
+                                   ('schema_field', _field_def_req_wf(self._sf(A)))]
+
+    def broken(self, A):
+        sf = self._sf(A)
+        return z3.And(sf != V.None_, _req_broken(sf, A['field']))
+
+
+class RequiredArgumentsValidate(Rule):
+    """5.4.2.1 dispatch: a directive node is checked against its directive definition, any other node against its field definition"""
+    key = Q + 'required_arguments.py::RequiredArguments.validate'
+    params = ['self', 'path', 'schema', 'node', 'parent_type_name']
+    self_class = 'RequiredArguments'
+
+    def pre(self, A, st):
+        n, s = A['node'], A['schema']
+        sf = FieldOf(A['parent_type_name'], name_of(n), s)
+        return self.rule_pre(A) + [('schema', schema_wf(s)),
+                                   ('node', z3.Or(z3.And(directive_node_wf(n), _dir_def_req_wf(s, n)),
+                                                  z3.And(exact(n, 'FieldNode'), V.oref(n) >= 0, named(n), has_args(n), _field_def_req_wf(sf))))]
+
+    def broken(self, A):
+        n, s = A['node'], A['schema']
+        dd = dir_def(s, n)
+        sf = FieldOf(A['parent_type_name'], name_of(n), s)
+        return z3.If(exact(n, 'DirectiveNode'), z3.And(dd != V.Missing, _req_broken(dd, n)), z3.And(sf != V.None_, _req_broken(sf, n)))
+
+
+class ArgumentNamesValidate(Rule):
+    """5.4.1 dispatch"""
+    key = Q + 'argument_names.py::ArgumentNames.validate'
+    params = ['self', 'node', 'path', 'schema', 'parent_type_name']
+    self_class = 'ArgumentNames'
+
+    def pre(self, A, st):
+        n, s = A['node'], A['schema']
+        sf = FieldOf(A['parent_type_name'], name_of(n), s)
+        return self.rule_pre(A) + [('schema', schema_wf(s)),
+                                   ('node', z3.Or(z3.And(directive_node_wf(n), dir_defs_wf(s, n)),
+                                                  z3.And(exact(n, 'FieldNode'), V.oref(n) >= 0, named(n), has_args(n), schema_field_wf(sf))))]
+
+    def broken(self, A):
+        n, s = A['node'], A['schema']
+        dd = dir_def(s, n)
+        sf = FieldOf(A['parent_type_name'], name_of(n), s)
+        args = V.items(attr0(n, 'arguments'))
+        return z3.If(exact(n, 'DirectiveNode'), z3.And(dd != V.Missing, z3.Not(ArgDeclared(args, V.ditems(attr0(dd, 'arguments'))))),
+                     z3.And(sf != V.None_, z3.Not(ArgDeclared(args, V.ditems(attr0(sf, 'arguments'))))))
+
+
+CONTRACTS += [RequiredArgumentsDirective(), RequiredArgumentsField(), RequiredArgumentsValidate(), ArgumentNamesValidate()]
